@@ -221,3 +221,8 @@ Proof.
   replace (length raw + 1)%nat with (S (length raw)) by lia. rewrite Nat.eqb_refl, orb_true_r. simpl.
   apply prefix_same_app.
 Qed.
+
+Lemma visible_iff_fpp pl child parent :
+  In parent pl -> c_issuer child = c_subject parent ->
+  (visible pl child parent <-> In parent (find_potential_parents pl child)).
+Proof. intros Hin Hname. split; [apply visible_fpp; assumption|apply fpp_visible]. Qed.
